@@ -406,6 +406,109 @@ def composite_exit_cases(ctx, replay=None):
     return {"violations": viol, "coverage": {"composite_exit_failure_cases": done}}
 
 
+class NotifyFails(Exception):
+    pass
+
+
+class FlakyObs(RecObs):
+    """records every notification, and raises from the `nth` one of kind `kind` in section `section` (a widget that has gone
+    away, a closed stream)"""
+
+    def __init__(self, kind, section, nth):
+        super().__init__()
+        self.kind, self.section, self.nth, self.seen = kind, section, nth, 0
+
+    def add(self, *e):
+        super().add(*e)
+        if e[0] == self.kind and len(e) > 1 and e[1] == self.section:
+            with self.lock:
+                self.seen += 1
+                hit = self.seen == self.nth
+            if hit:
+                raise NotifyFails(f"this observer fails when told {self.kind!r}")
+
+
+def raising_notification_cases(ctx, replay=None):
+    """An observer - alone, or a member of a composite between two well-behaved ones - raises from one notification
+    (`increment_running` / `increment_completed` / `increment_failed`, section run or stale).  Whatever the run then does, no
+    member may be told more endings (completed + failed) for a section and scope than it was told beginnings, and every member
+    is entered once and exited once, last."""
+    from uberjob.progress import composite_progress
+    rng = random.Random(ctx.seed * 53 + 29)
+    viol, done = [], 0
+    shapes = [replay["notify_case"]] if replay else [(kind, sec, nth, comp, fail) for kind in ("running", "completed", "failed")
+                                                      for sec in ("run", "stale") for nth in (1, 2) for comp in (False, True)
+                                                      for fail in (False, True)]
+    for kind, sec, nth, comp, fail in shapes:
+        flaky = FlakyObs(kind, sec, nth)
+        members = [RecObs(), flaky, RecObs()] if comp else [flaky]
+        progs = [OneObsProgress(o) for o in members]
+        prog = composite_progress(*progs) if comp else progs[0]
+        rec = plans.Rec()
+        spec = plans.gen_spec(rng, nmax=4)
+        calls = [nd["id"] for nd in spec["nodes"] if nd["kind"] == "call"]
+        failing = {calls[0]: "ValueError"} if fail and calls else {}
+        plan, nodes, _ = plans.build(spec, rec, failing)
+        reg = None
+        if sec == "stale":
+            reg = uberjob.Registry()
+            for i in calls[:3]:
+                reg.add(nodes[i], _mem_store())
+        try:
+            uberjob.run(plan, output=[nodes[i] for i in sorted(nodes)], progress=prog, max_workers=2, max_errors=None,
+                        **({"registry": reg} if reg is not None else {}))
+        except BaseException:      # noqa: BLE001 - which exception the caller sees is not judged here
+            pass
+        done += 1
+        case = [kind, sec, nth, bool(comp), bool(fail)]
+        for i, o in enumerate(members):
+            bad = []
+            n_enter = sum(1 for e in o.ev if e == ("enter",))
+            n_exit = sum(1 for e in o.ev if e == ("exit",))
+            if n_enter != 1 or n_exit != 1 or o.ev[0] != ("enter",) or o.ev[-1] != ("exit",):
+                bad.append(f"was entered {n_enter}x and exited {n_exit}x (last notifications: {o.ev[-3:]})")
+            running = collections.Counter()
+            for e in o.ev[1:-1]:
+                if e[0] == "running":
+                    running[(e[1], e[2])] += 1
+                elif e[0] in ("completed", "failed"):
+                    running[(e[1], e[2])] -= 1
+                    if running[(e[1], e[2])] < 0:
+                        bad.append(f"was told {e[0]!r} for {e[1:3]} once more than it was told 'running' "
+                                   f"(its account of that scope: {[x[0] for x in o.ev if x[1:3] == e[1:3]]})")
+                        break
+            if bad:
+                viol.append({"property": "C15", "what": f"{'composite of 3, member #1' if comp else 'a single observer'} raises from its "
+                             f"{'first' if nth == 1 else 'second'} {kind!r} notification in section {sec!r} during a "
+                             f"{'failing' if failing else 'successful'} run: member #{i} " + bad[0],
+                             "replay_fn": "raising_notification", "notify_case": case})
+                break
+        if viol:
+            break
+    return {"violations": viol, "coverage": {"raising_notification_cases": done}}
+
+
+def _mem_store():
+    import datetime as dt
+    from uberjob import ValueStore
+
+    class M(ValueStore):
+        def __init__(self):
+            self.v, self.t = None, None
+
+        def read(self):
+            if self.t is None:
+                raise FileNotFoundError("empty")
+            return self.v
+
+        def write(self, value):
+            self.v, self.t = value, dt.datetime.now(dt.timezone.utc)
+
+        def get_modified_time(self):
+            return self.t
+    return M()
+
+
 class FreshObsProgress(Progress):
     """a Progress that hands out a NEW recording observer for every run (as the bundled ones do)"""
 
@@ -475,6 +578,10 @@ def explore(ctx):
         res["coverage"].update(c["coverage"])
     if not res["violations"]:
         c = composite_exit_cases(ctx)
+        res["violations"] += c["violations"]
+        res["coverage"].update(c["coverage"])
+    if not res["violations"]:
+        c = raising_notification_cases(ctx)
         res["violations"] += c["violations"]
         res["coverage"].update(c["coverage"])
     return res
@@ -558,7 +665,7 @@ def search(ctx, broken):
         if found:
             break
     if not found:
-        for fn in (composite_reuse_cases, composite_enter_cases, composite_exit_cases):
+        for fn in (composite_reuse_cases, composite_enter_cases, composite_exit_cases, raising_notification_cases):
             found += fn(ctx)["violations"]
             if found:
                 break
@@ -572,6 +679,9 @@ def replay(ctx, payload):
         return r["violations"][0]["what"] if r["violations"] else None
     if w.get("replay_fn") == "composite_exit":
         r = composite_exit_cases(ctx, replay=w)
+        return r["violations"][0]["what"] if r["violations"] else None
+    if w.get("replay_fn") == "raising_notification":
+        r = raising_notification_cases(ctx, replay=w)
         return r["violations"][0]["what"] if r["violations"] else None
     info = w.get("case")
     if not info or info.get("registry"):
